@@ -57,11 +57,13 @@ def gen(rng, facts):
                 inj.append((rng.choice([3, 4]), rng.choice([0, 1]), [('log', t, c.next_id, rng.randrange(nl), 4, HDR_LOG, 0, False)])); c.next_id += 1
             c.poll(inj)
     # drain: let blocked producers finish, move the clock past the grace period, poll until idle
+    n0 = len(c.cmds)
     for _ in range(6):
         for t in range(nt): c.resume(t)
         c.tick(2000)
         for _ in range(12): c.poll()
     c.ctx()
+    c.keep_tail = len(c.cmds) - n0
     return c
 
 
